@@ -214,6 +214,7 @@ static void run_case(Rng& rng, uint64_t) {
     int rounds = big ? 2 : 40;
     for (int r = 0; r < rounds; ++r) {
         int shape = (int)rng.below(SHAPES);
+        if (big && rng.coin()) shape = 2;   // shared prefixes: the shapes that nest 16-bit radix steps
         size_t n = pick_n(rng, big);
         std::vector<std::string> in = gen_strings(rng, n, shape, big);
         switch (rng.below(big ? 6 : 8)) {
